@@ -6,6 +6,7 @@ package canary
 
 import (
 	"bytes"
+	"container/list"
 	"context"
 	"errors"
 	"strconv"
@@ -297,4 +298,25 @@ func (wholeHasher) Sum64(key string) uint64 {
 		h *= 1099511628211
 	}
 	return h
+}
+
+// ---- look-ups that write
+type miniLRU struct {
+	ll    *list.List
+	cache map[string]*list.Element
+}
+
+func (c *miniLRU) Get(key string) (any, bool) {
+	if ele, hit := c.cache[key]; hit {
+		c.ll.MoveToFront(ele)
+		return ele.Value, true
+	}
+	return nil, false
+}
+
+func (c *miniLRU) Len() int {
+	if c.cache == nil {
+		return 0
+	}
+	return c.ll.Len()
 }
